@@ -542,12 +542,20 @@ def check_setup(res, case):
         # some categories were already looked up through the provider before the configuration arrives
         for c in cats[:1]:
             provider.get(c)
+    matcher = None
+    if case.get("matcher_first"):
+        # the documented environment.py layout: the matcher is created at module level, the values are
+        # configured later in before_all()
+        matcher = build_active_matcher(provider, cfg)
     setup_active_tag_values(provider, dict(overrides))
     merged = dict(initial)
     for c, v in overrides.items():
         if c in merged:
             merged[c] = v
-    matcher = build_active_matcher(provider, cfg)
+    if matcher is None:
+        matcher = build_active_matcher(provider, cfg)
+    else:
+        res.label("setup:matcher-created-before-the-values")
     expected = ref_excluded(active, merged, ignore_unknown)
     excl = matcher.should_exclude_with(list(tags))
     res.evals = 1
@@ -969,7 +977,7 @@ def gen_setup_case(rnd):
     if rnd.random() < 0.4:
         overrides["zz.unknown"] = rnd.choice(tag_values + ["x"])
     case = {"kind": "setup", "tags": tags, "values": values, "overrides": overrides, "mode": rnd.choice(SETUP_MODES),
-            "asked_before": rnd.random() < 0.3}
+            "asked_before": rnd.random() < 0.3, "matcher_first": rnd.random() < 0.5}
     if cfg is not None:
         case["cfg"] = cfg
     return case
@@ -1069,7 +1077,8 @@ def required_labels(tier):
              "unknown-not-ignored", "via:subclass", "via:attr", "regex-special-separator",
              "composite-matcher", "composite-members-disagree", "composite-nested", "composite-predicate-member"]
             + ["provider:" + m for m in MODES + ["none"]]
-            + ["setup_active_tag_values", "setup:overrides-known-category", "setup:unknown-category-in-data"]
+            + ["setup_active_tag_values", "setup:overrides-known-category", "setup:unknown-category-in-data",
+               "setup:matcher-created-before-the-values"]
             + ["setup:" + m for m in SETUP_MODES]
             + ["changing-lazy-values", "changing:verdict-flips"] + ["changing:" + m for m in CHANGING_MODES])
 
